@@ -68,6 +68,13 @@ request_module(InterrogateModuleDef *def) {
     }
   }*/
 
+  if (!_requested_defs.insert(def).second) {
+    // We have been given this definition before (the initialization code of
+    // a module may well run more than once).  Registering it again would move
+    // its index range a second time and read its database a second time.
+    return;
+  }
+
   int num_indices = def->next_index - def->first_index;
   if (num_indices > 0) {
     // If the module def has any definitions--any index numbers used--assign
